@@ -289,3 +289,98 @@ Theorem C06_puff_fixed : forall c s o bs o' rest tail N,
   exists s', fixed c s = Ok s' /\ inrep c s' rest tail /\ outrep c s' o'.
 Proof. exact fixed_spec. Qed.
 Print Assumptions C06_puff_fixed.
+
+(* stage (e): dynamic().  The premises are exactly those of bk_dynamic in DeflateSpec.v: HLIT <= 29 (at most 286
+   literal/length codes), HDIST <= 29 (at most 30 distance codes), the HCLEN + 4 three-bit lengths vs of the code
+   length code in the order 16,17,18,0,8,7,9,... (cl_of), that code complete, the HLIT + 257 + HDIST + 1 code lengths
+   run-length coded with it (cl_lengths: 0..15, 16 = repeat previous 3..6 times, 17 = 3..10 zeros, 18 = 11..138 zeros,
+   never beyond the total), both codes acceptable (code_ok: complete, or all lengths 0/1), then the symbols. *)
+From ScV Require Import C06.DeflateDynamic.
+
+Theorem C06_puff_dynamic : forall c s o hlit hdist hclen vs lens bs1 bs2 o' rest tail N,
+  0 <= hlit <= 29 -> 0 <= hdist <= 29 -> 0 <= hclen <= 15 ->
+  len vs = hclen + 4 -> Forall (fun v => 0 <= v < 8) vs ->
+  complete (cl_of vs) ->
+  cl_lengths (cl_of vs) (hlit + 257 + (hdist + 1)) [] bs1 lens ->
+  code_ok (firstn (Z.to_nat (hlit + 257)) lens) ->
+  code_ok (skipn (Z.to_nat (hlit + 257)) lens) ->
+  symbols (firstn (Z.to_nat (hlit + 257)) lens) (skipn (Z.to_nat (hlit + 257)) lens) o bs2 o' ->
+  len o' <= N -> N < M64 -> (c_nil c = false -> N <= c_outlen c /\ N <= c_outcap c) ->
+  inrep c s (bitsZ 5 hlit ++ bitsZ 5 hdist ++ bitsZ 4 hclen ++ flat_map (bitsZ 3) vs ++ bs1 ++ bs2 ++ rest) tail ->
+  outrep c s o ->
+  exists s', dynamic c s = Ok s' /\ inrep c s' rest tail /\ outrep c s' o'.
+Proof. exact dynamic_spec. Qed.
+Print Assumptions C06_puff_dynamic.
+
+(* stage (f) and the result.  THE THEOREM: sc_puff inflates every deflate stream.  s = the sourcelen bytes handed to
+   sc_puff, d = the data, `deflate_stream s d` = s is, LSB first, a sequence of stored / fixed / dynamic blocks (the last
+   one with BFINAL) for d followed by fewer than 8 unused bits; tail = whatever follows in memory (the Adler-32
+   trailer), dnil: dest == NIL (scanning), cap = memory at dest.  sc_puff returns 0, *destlen = |d|, *sourcelen = |s|
+   and has written d (destlen = the size announced for the destination, any value >= |d|). *)
+From ScV Require Import C06.DeflateCorrect.
+
+Theorem C06_puff_inflates_deflate : forall s d tail dnil cap destlen,
+  deflate_stream s d -> bytes s -> len s < M64 -> len d <= destlen < M64 -> (dnil = false -> destlen <= cap) ->
+  puff dnil cap destlen (s ++ tail) (len s) = Ok (0, len d, len s, if dnil then [] else d) /\ bytes d.
+Proof. exact puff_inflates_deflate_gen. Qed.
+Print Assumptions C06_puff_inflates_deflate.
+
+(* hence the specification is functional: a byte string is a deflate stream for at most one data string *)
+Theorem C06_deflate_spec_functional : forall s d d', bytes s -> len s < M64 -> len d < M64 -> len d' < M64 ->
+  deflate_stream s d -> deflate_stream s d' -> d = d'.
+Proof. exact deflate_stream_functional. Qed.
+Print Assumptions C06_deflate_spec_functional.
+
+(* the new specification extends the stored-block specification of C06_stored_is_zlib: what sc_io_noncompress
+   writes is a zlib stream in the new sense as well *)
+Theorem C06_stored_spec_is_special_case : forall s d, zlib_stored_stream s d -> bytes s -> zlib_stream s d.
+Proof. exact zlib_stored_is_zlib. Qed.
+Print Assumptions C06_stored_spec_is_special_case.
+
+(* sc_io_nonuncompress (header checks, sc_puff, length checks, Adler-32 of the output against the trailer) returns d
+   for EVERY zlib stream for d (RFC 1950 wrapper, any CINFO <= 7, any FLG with FDICT clear and valid FCHECK, around
+   any RFC 1951 deflate stream) - generalises C06_stored_reader_accepts_rfc from stored blocks to all block types *)
+Theorem C06_reader_accepts_zlib_streams : forall z d cap dnil,
+  zlib_stream z d -> bytes z -> len z < M64 -> len d < M64 ->
+  (dnil = false -> len d <= cap) -> (dnil = true -> d = []) ->
+  nonuncompress z (len d) cap dnil = Ok d.
+Proof. exact nonuncompress_inflates. Qed.
+Print Assumptions C06_reader_accepts_zlib_streams.
+
+(* a fact about the format, derived from the specification: n bytes of deflate data encode at most 1032 n bytes
+   (a <length, distance> pair yields at most 258 bytes and costs at least 2 bits) - the constant of the guard
+   `size / 1032 > ocnt` of sc_io_decode (commit 5c6a588) *)
+From ScV Require Import C06.DeflateBound.
+
+Theorem C06_deflate_expansion : forall s d, deflate_stream s d -> len d <= 1032 * len s.
+Proof. exact deflate_expansion. Qed.
+Print Assumptions C06_deflate_expansion.
+
+(* Configuration independence, direction zlib build -> build without zlib.  compress2 is external code; its contract
+   is CONFORMANCE to RFC 1950/1951 as an encoding of its input (not a round trip with some inflate).  Then the decoder
+   of the build without zlib returns the data with the identical element count - for every level, all 256 break
+   bytes, every element size dividing the length, owner or sufficient view, maximum 0 or >= length.  The size
+   hypotheses are those of C06_roundtrip, WITHOUT its premise on the compression ratio (C06_deflate_expansion). *)
+Section ZlibConforms.
+  Variable deflate : Z -> list Z -> list Z.
+  Hypothesis deflate_bytes : forall l d, bytes d -> bytes (deflate l d).
+  Hypothesis deflate_conforms : forall l d, bytes d -> zlib_stream (deflate l d) d.
+
+  Theorem C06_cross_decode_zlib_to_nozlib : forall lvl lb d out maxsz,
+    bytes d -> 9 + len (deflate lvl d) < M64 / 4 -> len d < M64 / 2 ->
+    0 < o_esz out -> (len d) mod (o_esz out) = 0 ->
+    (maxsz <= 0 \/ len d <= maxsz) ->
+    (o_owner out = false -> len d <= o_cnt out * o_esz out < M64) ->
+    sc_decode (sc_encode_with (deflate lvl) lb d) out maxsz = Ok (len d / o_esz out, d).
+  Proof. exact (cross_decode_zlib_to_nozlib_all deflate deflate_bytes deflate_conforms). Qed.
+End ZlibConforms.
+Print Assumptions C06_cross_decode_zlib_to_nozlib.
+
+(* the specification is not vacuous and relates REAL zlib output to its input (C06/DeflateExamples.v: streams of
+   python3 zlib.compress - stored, fixed code with overlapping matches of length 258, fixed code with matches at distance
+   45, dynamic codes with run-length coded code lengths; derivations found by tactics, checked by the kernel) *)
+From ScV Require Import C06.DeflateExamples.
+Example C06_ex_zlib_fixed : zlib_stream ex2_z (repeat 0 1000) /\ nonuncompress ex2_z 1000 1000 false = Ok (repeat 0 1000).
+Proof. split; [exact ex2_conforms|exact ex2_decoded]. Qed.
+Example C06_ex_zlib_dynamic : zlib_stream ex4_z ex4_d /\ nonuncompress ex4_z 300 300 false = Ok ex4_d.
+Proof. split; [exact ex4_conforms|exact ex4_decoded]. Qed.
